@@ -1,0 +1,65 @@
+//go:build verif
+
+// Contracts for gocv (see /verif/DESIGN.md). Comment-only file: takes no part in any build.
+
+package common
+
+// ---- C37: private keys decrypt correctly across formats ------------------------------------------
+// kdf(pw): the 32-byte AES key derived from a password (first 32 bytes / zero padded).
+// cbcEnc / cbcDec: AES-256-CBC over whole blocks (AES itself is trusted; the only fact used is that
+// decryption inverts encryption under the same key and IV).
+//@ smt (declare-fun kdf (Bytes) Bytes)
+//@ smt (assert (forall ((p Bytes)) (! (= (blen (kdf p)) 32) :pattern ((kdf p)))))
+//@ smt (assert (forall ((p Bytes) (i Int)) (! (=> (and (<= 0 i) (< i 32)) (= (bat (kdf p) i) (ite (< i (blen p)) (bat p i) 0))) :pattern ((select (barr (kdf p)) i)))))
+//@ smt (declare-fun cbcEnc (Bytes Bytes Bytes) Bytes)
+//@ smt (declare-fun cbcDec (Bytes Bytes Bytes) Bytes)
+//@ smt (assert (forall ((k Bytes) (iv Bytes) (p Bytes)) (! (= (blen (cbcEnc k iv p)) (blen p)) :pattern ((cbcEnc k iv p)))))
+//@ smt (assert (forall ((k Bytes) (iv Bytes) (p Bytes)) (! (= (blen (cbcDec k iv p)) (blen p)) :pattern ((cbcDec k iv p)))))
+//@ smt (assert (forall ((k Bytes) (iv Bytes) (p Bytes)) (! (=> (= (mod (blen p) 16) 0) (= (cbcDec k iv (cbcEnc k iv p)) p)) :pattern ((cbcEnc k iv p)))))
+
+//@ ghost *.aeskey Bytes
+//@ ghost *.cbciv Bytes
+//@ ghost *.cbcdec Bool
+//@ trusted func crypto/aes.NewCipher
+//@   frame nothing
+//@   ensures len(key) == 32 ==> result1 == nil && result0 != nil && result0.aeskey == bytes(key)
+//@ trusted func (crypto/cipher.Block).BlockSize
+//@   frame nothing
+//@   ensures result == 16
+//@ trusted func crypto/cipher.NewCBCEncrypter
+//@   frame nothing
+//@   ensures result != nil && result.aeskey == b.aeskey && result.cbciv == bytes(iv) && !result.cbcdec
+//@ trusted func crypto/cipher.NewCBCDecrypter
+//@   frame nothing
+//@   ensures result != nil && result.aeskey == b.aeskey && result.cbciv == bytes(iv) && result.cbcdec
+//@ trusted func (crypto/cipher.BlockMode).CryptBlocks
+//@   frame @dst
+//@   ensures len(dst) >= len(src) ==> bsub(bytes(dst), 0, len(src)) == (recv.cbcdec ? cbcDec(recv.aeskey, recv.cbciv, old(bytes(src))) : cbcEnc(recv.aeskey, recv.cbciv, old(bytes(src))))
+//@ trusted func io.ReadFull
+//@   frame @buf
+
+// new format: IV(16) ++ CBC(kdf(password), IV, key)
+//@ func CBCEncrypterPrivkey [C37]
+//@   opt safety=assumed overflow=assumed
+//@   ensures !isnil(result) ==> len(result) == 16 + len(privkey)
+//@   ensures !isnil(result) ==> bsub(bytes(result), 16, 16 + len(privkey)) == cbcEnc(kdf(bytes(password)), bsub(bytes(result), 0, 16), old(bytes(privkey)))
+
+// new format iff the blob is IV + 32 or 64 bytes of ciphertext; otherwise the legacy fixed IV
+//@ func CBCDecrypterPrivkey [C37]
+//@   opt safety=assumed overflow=assumed
+//@   ensures !isnil(result) && len(privkey) > 16 && len(privkey) % 16 == 0 && (len(privkey) == 48 || len(privkey) == 80) ==> bytes(result) == cbcDec(kdf(bytes(password)), bsub(old(bytes(privkey)), 0, 16), bsub(old(bytes(privkey)), 16, len(privkey)))
+//@   ensures !isnil(result) && !(len(privkey) > 16 && len(privkey) % 16 == 0 && (len(privkey) == 48 || len(privkey) == 80)) ==> bytes(result) == cbcDec(kdf(bytes(password)), bsub(kdf(bytes(password)), 0, 16), old(bytes(privkey)))
+
+// round trips at the level of the two specifications above (32- and 64-byte keys, every password)
+//@ lemma cbc_roundtrip_new [C37]
+//@   forall k Bytes, iv Bytes, p Bytes
+//@   requires blen(p) == 32 || blen(p) == 64
+//@   requires blen(iv) == 16
+//@   ensures blen(bcat(iv, cbcEnc(k, iv, p))) > 16 && blen(bcat(iv, cbcEnc(k, iv, p))) % 16 == 0 && (blen(bcat(iv, cbcEnc(k, iv, p))) == 48 || blen(bcat(iv, cbcEnc(k, iv, p))) == 80)
+//@   ensures cbcDec(k, bsub(bcat(iv, cbcEnc(k, iv, p)), 0, 16), bsub(bcat(iv, cbcEnc(k, iv, p)), 16, 16 + blen(p))) == p
+
+//@ lemma cbc_roundtrip_legacy [C37]
+//@   forall k Bytes, p Bytes
+//@   requires blen(p) == 32 || blen(p) == 64
+//@   ensures !(blen(cbcEnc(k, bsub(k, 0, 16), p)) == 48 || blen(cbcEnc(k, bsub(k, 0, 16), p)) == 80)
+//@   ensures cbcDec(k, bsub(k, 0, 16), cbcEnc(k, bsub(k, 0, 16), p)) == p
